@@ -50,6 +50,8 @@ struct DocumentBuilder {
     current_node_id: NodeId,
     name_id_builder: NameIdBuilder,
     element_builder: Option<ElementBuilder>,
+    // the qualified names of the open elements, as written
+    open_element_names: Vec<(String, String)>,
     seen_ids: HashSet<String>,
     id_nodes: HashMap<String, NodeId>,
     xml_id_id: NameId,
@@ -66,6 +68,7 @@ impl DocumentBuilder {
             current_node_id: document,
             name_id_builder,
             element_builder: None,
+            open_element_names: Vec::new(),
             seen_ids: HashSet::new(),
             id_nodes: HashMap::new(),
             xml_id_id: xot.xml_id_id,
@@ -163,6 +166,8 @@ impl DocumentBuilder {
         let element_value = Value::Element(Element { name_id });
         let node_id = self.add(element_value, xot);
         self.current_node_id = node_id;
+        self.open_element_names
+            .push((element_builder.prefix.clone(), element_builder.name.clone()));
 
         // add namespace nodes
         for (prefix_id, namespace_id) in &element_builder.namespaces {
@@ -266,6 +271,7 @@ impl DocumentBuilder {
         let current_node = xot.arena.get(self.current_node_id).unwrap();
         if matches!(current_node.get(), Value::Element(_)) {
             self.name_id_builder.pop();
+            self.open_element_names.pop();
         }
         let closed_node_id = self.current_node_id;
         self.current_node_id = current_node.parent().expect("Cannot close document node");
@@ -283,7 +289,14 @@ impl DocumentBuilder {
             .element_name_id(&prefix, &name, prefix.into(), xot)?;
         let current_node = xot.arena.get(self.current_node_id).unwrap();
         if let Value::Element(element) = current_node.get() {
-            if element.name_id != name_id {
+            // the end tag has to repeat the name as it is written in the
+            // start tag; another prefix for the same namespace is not enough
+            let same_as_written = self
+                .open_element_names
+                .last()
+                .map(|(p, n)| p == prefix.as_str() && n == name.as_str())
+                .unwrap_or(true);
+            if element.name_id != name_id || !same_as_written {
                 return Err(ParseError::InvalidCloseTag(
                     prefix.to_string(),
                     name.to_string(),
@@ -291,6 +304,7 @@ impl DocumentBuilder {
                 ));
             }
             self.name_id_builder.pop();
+            self.open_element_names.pop();
         }
         let closed_node_id = self.current_node_id;
         // a close tag without any open element (only possible in a fragment;
